@@ -25,6 +25,8 @@ ENGINES = [
      "kind_free_text": "TLA+ model of the sparse-solver wrappers' caching protocol; call sequences replayed on the real wrappers"},
     {"name": "discrete", "path": "spec/Discrete.tla spec/Scen_Discrete.tla vh/discdrv.py", "serves_properties": ["C09"],
      "kind_free_text": "definitions of discrete components in TLA+; lattices and histories enumerated by TLC with prescribed outputs"},
+    {"name": "eigreduce", "path": "spec/EigReduce.tla spec/Trace_Eig.tla spec/Rat.tla vh/eigdrv.py", "serves_properties": ["C08"],
+     "kind_free_text": "exact rational reduction and characteristic polynomials in TLA+, evaluated on the real EIG routines"},
     {"name": "connectivity", "path": "spec/Connectivity.tla spec/Trace_Connectivity.tla spec/Scen_Connectivity.tla vh/conndrv.py vh/netbuild.py",
      "serves_properties": ["C12"], "kind_free_text": "graph definitions in TLA+ evaluated by TLC on logged graphs of real Systems; ConnMan model-checked"},
     {"name": "lifecycle", "path": "spec/Lifecycle.tla spec/Trace_Lifecycle.tla spec/Scen_Lifecycle.tla vh/lifecycle.py vh/infeasible.py",
@@ -167,6 +169,19 @@ CHECKS["C09"] = dict(
     note=TRUSTED.replace("vh/tdsdrv.py: ranks of floats, booleans computed on floats", "vh/discdrv.py stand-alone instantiation as in tests/test_discrete.py; vh/tdsdrv.observe_limits")
          + "SortedLimiter, RateLimiter, AntiWindupRate, ShuntAdjust, time-mode Delay only through simulations. Known finding: "
            "DeadBandRT return flags.")
+
+CHECKS["C08"] = dict(
+    engine="eigreduce", design_ref="DESIGN.md 4 (C08), 2.4",
+    technique="exact-rational block elimination and characteristic polynomials in TLA+ (EigReduce), enumerated by TLC and evaluated on "
+              "the library's real EIG routines; stock cases against dense block elimination; TLC validates all records",
+    text="EigReduce.tla defines the state matrix by one-shot block elimination over exact rationals with a zero time constant at "
+         "every position and emits the exact reduced matrix and characteristic-polynomial coefficients; the library's calc_As / "
+         "calc_pfactor / _store_stats are run on every enumerated case (779) and must reproduce the matrix, eigenvalues (roots of "
+         "the exact polynomial, right count), names, partitioning counts and participation-factor properties; EIG.run on stock "
+         "cases is compared with a dense block elimination.",
+    note=TRUSTED.replace("vh/tdsdrv.py: ranks of floats, booleans computed on floats", "vh/eigdrv.py: closeness predicates (1e-9 matrix, 1e-7 polynomial residual)")
+         + "Lattice bound: n = 3, m = 1, at most one zero time constant; larger systems only through stock cases (numeric reference). "
+           "The 'most associated state' clause is decided for decoupled (diagonal) systems only.")
 
 NOT_APPLICABLE = [
     {"property_id": "C07", "reason": "numeric accuracy / convergence order against closed-form and matrix-exponential references: no "
